@@ -3,6 +3,7 @@ package gbk
 import (
 	"fmt"
 	"math/rand/v2"
+	"regexp"
 	"sort"
 	"strings"
 )
@@ -18,6 +19,12 @@ import (
 // embedded), and the singles and pairs once more over three reduced layouts (only private
 // Option fields, only public fields, embedded + pointer).
 //
+// @fp.Deref is part of the subsets although it has nothing to forward to on a struct declaration
+// (probed: gombok sets the right-hand-side type only for `type X pkg.T` / `type X G[A]`; a struct
+// declaration and a local `type D Base` are accepted and ignored) - it must stay harmless next to
+// every other annotation. Declarations `type D Base[int]` of a generic local struct are outside the
+// grammar: gombok prints the uninstantiated field types there (`undefined: T`) under every annotation.
+//
 // What gombok makes of a subset is not assumed: the expectations of the law test follow from
 // the annotations one by one (lawtest.go exp*), and a subset whose generated code does not
 // compile is a violation keyed by the MINIMAL failing subsets (see ComboFindings).
@@ -29,6 +36,7 @@ var ComboAnnotations = []string{"@fp.Value", "@fp.Getter", "@fp.With", "@fp.Buil
 // Combo is the provenance of a combination struct.
 type Combo struct {
 	Anns   []string // subset, in ComboAnnotations order
+	N      int      // number of the struct (suffix of its name and of its field names)
 	Layout string   // all | private-option | public-only | embedded-pointer
 }
 
@@ -47,17 +55,20 @@ func comboLabel(anns []string) string {
 // ComboLayouts lists the field layouts of the combination structs.
 var ComboLayouts = []string{"all", "private-option", "public-only", "embedded-pointer"}
 
-func (g *G) comboFields(layout string) []Field {
+// comboFields: the field names carry the struct's number, so that no struct borrows a package-level
+// declaration (the Named<Field> types of @fp.GenLabelled) that gombok emitted for a sibling.
+func (g *G) comboFields(layout string, n int) []Field {
+	f := func(name string, t *Ty) Field { return fld(fmt.Sprintf("%s%d", name, n), t) }
 	switch layout {
 	case "private-option":
-		return []Field{fld("name", tStr()), fld("opt", OptionT(tInt(), true)), fld("osl", OptionT(SliceT(tInt()), true))}
+		return []Field{f("name", tStr()), f("opt", OptionT(tInt(), true)), f("osl", OptionT(SliceT(tInt()), true))}
 	case "public-only":
-		return []Field{fld("Pub", tStr()), fld("PubOpt", OptionT(tInt(), true)), fld("PubPtr", PtrT(tInt()))}
+		return []Field{f("Pub", tStr()), f("PubOpt", OptionT(tInt(), true)), f("PubPtr", PtrT(tInt()))}
 	case "embedded-pointer":
-		return []Field{g.Emb("ptr-struct"), fld("ptr", PtrT(tInt())), g.Emb("named-basic")}
+		return []Field{g.Emb("ptr-struct"), f("ptr", PtrT(tInt())), g.Emb("named-basic")}
 	}
-	return []Field{fld("name", tStr()), fld("opt", OptionT(tInt(), true)), fld("optp", OptionT(PtrT(tInt()), true)), fld("ptr", PtrT(tInt())),
-		fld("Pub", tStr()), fld("PubOpt", OptionT(SliceT(tStr()), true)), fld("PubPtr", PtrT(tStr())), g.Emb("ptr-struct")}
+	return []Field{f("name", tStr()), f("opt", OptionT(tInt(), true)), f("optp", OptionT(PtrT(tInt()), true)), f("ptr", PtrT(tInt())),
+		f("Pub", tStr()), f("PubOpt", OptionT(SliceT(tStr()), true)), f("PubPtr", PtrT(tStr())), g.Emb("ptr-struct")}
 }
 
 // comboSubsets enumerates the subsets: all singles, pairs and triples, the full set, and
@@ -119,8 +130,8 @@ func ComboPackages(r *rand.Rand, prefix string, nPkg, extra int) []*Pkg {
 		if len(order) > 1 && r.IntN(100) < 30 { // the order of the annotation lines is free
 			r.Shuffle(len(order), func(i, j int) { order[i], order[j] = order[j], order[i] })
 		}
-		s := g.mk(fmt.Sprintf("Q%d", n), "annotations/"+comboLabel(anns)+"/"+layout, order, g.comboFields(layout)...)
-		s.Combo = &Combo{Anns: anns, Layout: layout}
+		s := g.mk(fmt.Sprintf("Q%d", n), "annotations/"+comboLabel(anns)+"/"+layout, order, g.comboFields(layout, n)...)
+		s.Combo = &Combo{Anns: anns, Layout: layout, N: n}
 		n++
 	}
 	for _, sub := range comboSubsets(r, extra) {
@@ -147,18 +158,37 @@ type ComboCompileError struct {
 	Raw    string
 }
 
-func normCompileMsg(msg, name string) string {
-	// Q12Builder, Q12Mutable, NewQ12, Q12 -> S...
+var (
+	reDupMethod  = regexp.MustCompile(`^method (\w+)\.\w+ already declared`)
+	reNamedUndef = regexp.MustCompile(`^undefined: (?:Pub)?Named\w+`)
+)
+
+// normCompileMsg makes the compiler messages of different structs comparable: the struct's own
+// name becomes S, its number is taken off the field-derived names, positions are dropped; duplicate
+// methods are named by their owner only (S, SBuilder, SMutable) and undefined Named<Field> types of
+// @fp.GenLabelled by their family, so that a superset with one more field-shaped member of the same
+// family counts as explained by its subset.
+func normCompileMsg(msg string, s *Struct) string {
 	out := msg
+	name := s.Name
 	for _, suf := range []string{"Builder", "Mutable", ""} {
 		out = replaceIdent(out, name+suf, "S"+suf)
 	}
 	out = replaceIdent(out, "New"+name, "NewS")
-	// positions of the other declaration differ from struct to struct
 	if i := strings.Index(out, " at "); i >= 0 {
 		out = out[:i]
 	}
-	return strings.TrimSpace(out)
+	if s.Combo != nil {
+		out = regexp.MustCompile(fmt.Sprintf(`([A-Za-z_])%d\b`, s.Combo.N)).ReplaceAllString(out, "$1")
+	}
+	out = strings.TrimSpace(out)
+	if m := reDupMethod.FindStringSubmatch(out); m != nil {
+		return "method " + m[1] + ".* already declared"
+	}
+	if reNamedUndef.MatchString(out) {
+		return "undefined: Named<Field>"
+	}
+	return out
 }
 
 func replaceIdent(s, name, by string) string {
